@@ -507,6 +507,11 @@ Definition view_C03 (c : ctx) (items : list item) : view :=
                    c03_carried_all (no_deps_value o) tparams (where_items (t_gen tr)) sigs (map snd (trait_sigs tr)) &&
                    c03_carried_all (no_deps_value o) (p_items (g_params (i_gen im))) (where_items (i_gen im)) sigs
                                    (map (fun '(_, s, _) => s) (impl_fns im)) &&
+                   (* no where predicate on the trait names a lifetime parameter of the function (they stay on the method) *)
+                   (match x_input c with
+                    | InFn _ s _ => forallb (fun w => negb (mentions_lifetime (life_names (s_gen s)) (wp_toks w))) (where_items (t_gen tr))
+                    | _ => true
+                    end) &&
                    nodup_str (gparam_names tparams))
                   (map (fun '(_, s) => print_sig s) (trait_sigs tr) ++ [print_generics_stored (t_gen tr); print_where (g_where (t_gen tr))])
       | None => na
